@@ -5,50 +5,61 @@
    behind when a reaction names a system whose covariances were never stored (KeyError in the
    middle of an append sequence).
 
-   store_mol_covs(ids, get_correlation)   fills cov[k] for every kernel (or only the exchange ones)
-                                          and the reference dictionaries while kernel 0 is processed
+   store_mol_covs(ids, get_correlation, get_orb_deriv)
+                                          fills cov[k] for every kernel (or only the exchange ones)
+                                          and the reference dictionaries while kernel 0 is processed;
+                                          with orbital derivatives also dcov[k] (covariances of the
+                                          occupation derivatives) for every processed kernel and the
+                                          derivative references (for ANY processed kernel, not only kernel 0)
    add_reactions(list)                    per reaction: reference lookup (mode 0), exchange kernels'
                                           covariances, [mode 2: KS baseline, correlation kernels'
                                           covariances | mode 0: zeros for correlation kernels],
-                                          then the label and the noise
+                                          then the label and the noise.  An entry of a reaction is a
+                                          system or a (system, orbital) pair; pairs are looked up in the
+                                          derivative dictionaries.  An XC reaction (mode 2) with a pair fails
+                                          at the Kohn-Sham baseline lookup, AFTER the exchange rows were appended
    reset_reactions(), fit()  *)
 EXTENDS Integers, Sequences, FiniteSets, TLC
 CONSTANTS Systems, Comp,      \* Comp: sequence of "x" / "c", one per kernel
-          Rxns,               \* [id -> [mode, structs (set of systems)]]
+          Rxns,               \* [id -> [mode, structs (systems entered as such), dstructs (systems entered through (system, orbital) pairs)]]
           MaxOps
-VARIABLES cov, refs, rxnRef, rxnNoise, rxnCov, fitted, lastErr, nops, hist
-vars == <<cov, refs, rxnRef, rxnNoise, rxnCov, fitted, lastErr, nops, hist>>
+VARIABLES cov, refs, dcov, drefs, rxnRef, rxnNoise, rxnCov, fitted, lastErr, nops, hist
+vars == <<cov, refs, dcov, drefs, rxnRef, rxnNoise, rxnCov, fitted, lastErr, nops, hist>>
 NK == Len(Comp)
 XK == {k \in 1..NK : Comp[k] = "x"}
 CK == {k \in 1..NK : Comp[k] # "x"}
 None == <<>>
-View == <<cov, refs, rxnRef, rxnNoise, rxnCov, fitted, lastErr, nops>>   \* hist is observation only
-Init == /\ cov = [k \in 1..NK |-> {}] /\ refs = {} /\ rxnRef = <<>> /\ rxnNoise = <<>>
+View == <<cov, refs, dcov, drefs, rxnRef, rxnNoise, rxnCov, fitted, lastErr, nops>>   \* hist is observation only
+Init == /\ cov = [k \in 1..NK |-> {}] /\ refs = {} /\ dcov = [k \in 1..NK |-> {}] /\ drefs = {} /\ rxnRef = <<>> /\ rxnNoise = <<>>
         /\ rxnCov = [k \in 1..NK |-> <<>>] /\ fitted = None /\ lastErr = FALSE /\ nops = 0 /\ hist = <<>>
 
-Store(ids, getcorr) ==
+Processed(k, getcorr) == getcorr \/ Comp[k] = "x"
+Store(ids, getcorr, deriv) ==
   /\ nops < MaxOps
-  /\ cov' = [k \in 1..NK |-> IF getcorr \/ Comp[k] = "x" THEN cov[k] \cup ids ELSE cov[k]]
-  /\ refs' = IF getcorr \/ Comp[1] = "x" THEN refs \cup ids ELSE refs      \* save_refs = (i == 0)
-  /\ lastErr' = FALSE /\ nops' = nops + 1 /\ hist' = Append(hist, <<"store", ids, getcorr>>)
+  /\ cov' = [k \in 1..NK |-> IF Processed(k, getcorr) THEN cov[k] \cup ids ELSE cov[k]]
+  /\ refs' = IF Processed(1, getcorr) THEN refs \cup ids ELSE refs      \* save_refs = (i == 0)
+  /\ dcov' = [k \in 1..NK |-> IF deriv /\ Processed(k, getcorr) THEN dcov[k] \cup ids ELSE dcov[k]]
+  /\ drefs' = IF deriv /\ (\E k \in 1..NK : Processed(k, getcorr)) THEN drefs \cup ids ELSE drefs
+  /\ lastErr' = FALSE /\ nops' = nops + 1 /\ hist' = Append(hist, <<"store", ids, getcorr, deriv>>)
   /\ UNCHANGED <<rxnRef, rxnNoise, rxnCov, fitted>>
 
 \* one reaction, in the code's order of effects; returns [ok, rxnRef, rxnNoise, rxnCov]
-RECURSIVE AppendKernels(_, _, _, _)
+RECURSIVE AppendKernels(_, _, _, _, _)
 \* append `id` to the covariance lists of kernels ks (ascending) until one lacks the systems
-AppendKernels(rc, ks, id, need) ==
+AppendKernels(rc, ks, id, need, dneed) ==
   IF ks = {} THEN [ok |-> TRUE, rc |-> rc]
   ELSE LET k == CHOOSE x \in ks : \A y \in ks : x <= y IN
-       IF need \subseteq cov[k] THEN AppendKernels([rc EXCEPT ![k] = Append(@, id)], ks \ {k}, id, need)
+       IF need \subseteq cov[k] /\ dneed \subseteq dcov[k] THEN AppendKernels([rc EXCEPT ![k] = Append(@, id)], ks \ {k}, id, need, dneed)
        ELSE [ok |-> FALSE, rc |-> rc]
 OneRxn(st, id) ==
   LET r == Rxns[id] IN
   IF ~st.ok THEN st
-  ELSE IF r.mode = 0 /\ ~(r.structs \subseteq refs) THEN [st EXCEPT !.ok = FALSE]
-  ELSE LET a == AppendKernels(st.rc, XK, id, r.structs) IN
+  ELSE IF r.mode = 0 /\ ~(r.structs \subseteq refs /\ r.dstructs \subseteq drefs) THEN [st EXCEPT !.ok = FALSE]
+  ELSE LET a == AppendKernels(st.rc, XK, id, r.structs, r.dstructs) IN
        IF ~a.ok THEN [st EXCEPT !.ok = FALSE, !.rc = a.rc]
-       ELSE IF r.mode = 2 /\ ~(r.structs \subseteq refs) THEN [st EXCEPT !.ok = FALSE, !.rc = a.rc]
-       ELSE LET b == IF r.mode = 2 THEN AppendKernels(a.rc, CK, id, r.structs)
+       \* mode 2: the Kohn-Sham baseline dictionary is keyed by systems only: a (system, orbital) pair is a KeyError here
+       ELSE IF r.mode = 2 /\ (~(r.structs \subseteq refs) \/ r.dstructs # {}) THEN [st EXCEPT !.ok = FALSE, !.rc = a.rc]
+       ELSE LET b == IF r.mode = 2 THEN AppendKernels(a.rc, CK, id, r.structs, r.dstructs)
                      ELSE [ok |-> TRUE, rc |-> [k \in 1..NK |-> IF k \in CK THEN Append(a.rc[k], "zero") ELSE a.rc[k]]] IN
             IF ~b.ok THEN [st EXCEPT !.ok = FALSE, !.rc = b.rc]
             ELSE [ok |-> TRUE, rc |-> b.rc, rr |-> Append(st.rr, id), rn |-> Append(st.rn, id)]
@@ -58,17 +69,17 @@ AddReactions(ids) ==
   /\ nops < MaxOps
   /\ LET st == Fold([ok |-> TRUE, rc |-> rxnCov, rr |-> rxnRef, rn |-> rxnNoise], ids) IN
        /\ rxnCov' = st.rc /\ rxnRef' = st.rr /\ rxnNoise' = st.rn /\ lastErr' = ~st.ok
-  /\ nops' = nops + 1 /\ hist' = Append(hist, <<"add", ids>>) /\ UNCHANGED <<cov, refs, fitted>>
+  /\ nops' = nops + 1 /\ hist' = Append(hist, <<"add", ids>>) /\ UNCHANGED <<cov, refs, dcov, drefs, fitted>>
 Reset == /\ nops < MaxOps /\ rxnRef' = <<>> /\ rxnNoise' = <<>> /\ rxnCov' = [k \in 1..NK |-> <<>>]
-         /\ lastErr' = FALSE /\ nops' = nops + 1 /\ hist' = Append(hist, <<"reset">>) /\ UNCHANGED <<cov, refs, fitted>>
+         /\ lastErr' = FALSE /\ nops' = nops + 1 /\ hist' = Append(hist, <<"reset">>) /\ UNCHANGED <<cov, refs, dcov, drefs, fitted>>
 Aligned == \A k \in 1..NK : Len(rxnCov[k]) = Len(rxnRef) /\ Len(rxnNoise) = Len(rxnRef)
 Fit == /\ nops < MaxOps
        /\ IF Aligned /\ Len(rxnRef) > 0
           THEN fitted' = [ref |-> rxnRef, cov |-> rxnCov] /\ lastErr' = FALSE
           ELSE fitted' = fitted /\ lastErr' = TRUE                     \* stacking / shape error
-       /\ nops' = nops + 1 /\ hist' = Append(hist, <<"fit">>) /\ UNCHANGED <<cov, refs, rxnRef, rxnNoise, rxnCov>>
+       /\ nops' = nops + 1 /\ hist' = Append(hist, <<"fit">>) /\ UNCHANGED <<cov, refs, dcov, drefs, rxnRef, rxnNoise, rxnCov>>
 RxnSeqs == UNION {[1..n -> DOMAIN Rxns] : n \in 1..2}
-Next == \/ \E ids \in SUBSET Systems \ {{}} : \E g \in BOOLEAN : Store(ids, g)
+Next == \/ \E ids \in SUBSET Systems \ {{}} : \E g, d \in BOOLEAN : Store(ids, g, d)
         \/ \E s \in RxnSeqs : AddReactions(s)
         \/ Reset \/ Fit
 Spec == Init /\ [][Next]_vars
@@ -79,6 +90,8 @@ AlignedUnlessFailed == [][(Aligned /\ \E s \in RxnSeqs : AddReactions(s)) => (la
 \* fit() never succeeds on misaligned lists and always solves for exactly the current reactions
 FitUsesCurrent == [][Fit => (lastErr' \/ (fitted'.ref = rxnRef /\ fitted'.cov = rxnCov))]_vars
 ResetClears == [][Reset => (Aligned' /\ Len(rxnRef') = 0)]_vars
+\* derivative dictionaries are only ever filled together with the plain ones
+DerivImpliesPlain == (\A k \in 1..NK : dcov[k] \subseteq cov[k])
 \* row r of every kernel's list belongs to reaction rxnRef[r]
 RowsBelong == Aligned => \A k \in 1..NK, r \in 1..Len(rxnRef) : rxnCov[k][r] \in {rxnRef[r], "zero"}
 Emit == nops = MaxOps => PrintT(<<"HIST", hist>>)
